@@ -16,7 +16,7 @@ def jobs(tier):
     for s in seqs:
         J.append(Job('refcount ' + ' ; '.join(KINDS[k] for k in s if k != 99), 'B', 'harness/cpp/refcount.cpp', 'harness_refcount',
                      pdefs={'IR2C_P0': s[0], 'IR2C_P1': s[1], 'IR2C_P2': s[2], 'IR2C_P3': s[3], 'IR2C_P4': 0, 'IR2C_P5': 0}, extra_clang=['-DMUSCLE_AVOID_TAGGED_POINTERS'],
-                     unwind=14, mode="func", family="refcount", object_bits=10, timeout=(120 if tier == 'quick' else 600)))
+                     unwind=(14 if tier == "quick" else 40), mode="func", family="refcount", object_bits=10, timeout=(120 if tier == 'quick' else 600)))
     return J
 
 
